@@ -148,14 +148,33 @@ func Heartbeat() {
 	}
 	var b [32]byte
 	copy(b[:], "                                ")
-	copy(b[:], strconv.Itoa(CurCase)+":"+strconv.FormatInt(hbCount, 10))
+	copy(b[:], strconv.Itoa(CurCase)+":"+strconv.FormatInt(hbCount, 10)+":"+strconv.FormatInt(curSub, 10))
 	hbFile.WriteAt(b[:], 0)
 }
 
 var (
 	hbFile  *os.File
 	hbCount int64
+	curSub  int64 = -1
 )
+
+// SetSub records which sub-case of the running case is about to run (written to the journal, so
+// that a worker death or hang can be attributed to it).
+func SetSub(n int) {
+	curSub = int64(n)
+	if hbFile == nil {
+		return
+	}
+	var b [32]byte
+	copy(b[:], "                                ")
+	copy(b[:], strconv.Itoa(CurCase)+":"+strconv.FormatInt(hbCount, 10)+":"+strconv.Itoa(n))
+	hbFile.WriteAt(b[:], 0)
+}
+
+// SubDescriber is implemented by properties whose cases consist of many sub-cases.
+type SubDescriber interface {
+	DescribeSub(i, sub int) any
+}
 
 var (
 	outMu   sync.Mutex
@@ -184,7 +203,23 @@ const maxOutcomesPerWorker = 1 << 16
 
 // WorkerMain runs cases start, start+n, start+2n, ... (interleaved sharding keeps the
 // simplest-first order within every shard).
-func WorkerMain(id, tier string, shard, nshards, start int, journal string, deadline time.Time) {
+// ResumeAfter returns the sub-case after which case idx is to be resumed in this worker (-1: run all
+// of it).  A worker that died inside sub-case k of a case is restarted on the same case and skips
+// the sub-cases up to and including k.
+func ResumeAfter(idx int) int {
+	if idx == resumeIdx {
+		return resumeSub
+	}
+	return -1
+}
+
+var resumeIdx, resumeSub = -1, -1
+
+func WorkerMain(id, tier string, shard, nshards, start int, journal string, deadline time.Time, resume string) {
+	if parts := strings.Split(resume, ":"); len(parts) == 2 {
+		resumeIdx, _ = strconv.Atoi(parts[0])
+		resumeSub, _ = strconv.Atoi(parts[1])
+	}
 	runtime.GOMAXPROCS(1)
 	debug.SetMaxStack(256 << 20)
 	outW = bufio.NewWriterSize(os.Stdout, 1<<16)
@@ -237,6 +272,7 @@ func WorkerMain(id, tier string, shard, nshards, start int, journal string, dead
 		copy(jb[:], "                                ")
 		copy(jb[:], s)
 		jf.WriteAt(jb[:], 0)
+		curSub = -1
 		tc := time.Now()
 		r := p.RunCase(i)
 		if dt := time.Since(tc).Seconds(); dt > 1 {
@@ -384,6 +420,15 @@ func ParentMain(o Options) int {
 	}
 	defer os.RemoveAll(tmp)
 
+	describe := func(journalText string, idx int) any {
+		parts := strings.Split(strings.TrimSpace(journalText), ":")
+		if sd, ok := p.(SubDescriber); ok && len(parts) == 3 {
+			if sub, err := strconv.Atoi(parts[2]); err == nil && sub >= 0 {
+				return sd.DescribeSub(idx, sub)
+			}
+		}
+		return p.Describe(idx)
+	}
 	var mu sync.Mutex
 	total := &wireDone{Counters: map[string]int64{}, MinBound: 1 << 30}
 	outcomes := map[uint64]struct{}{}
@@ -396,11 +441,13 @@ func ParentMain(o Options) int {
 			defer wg.Done()
 			start := 0
 			restarts := 0
+			resume := "-"
 			for {
 				journal := filepath.Join(tmp, fmt.Sprintf("j%d", shard))
 				os.Remove(journal)
 				cmd := exec.Command(o.WorkerBin, "worker", o.ID, o.Tier, strconv.Itoa(shard), strconv.Itoa(o.Workers),
-					strconv.Itoa(start), journal, strconv.FormatInt(deadline.Unix(), 10))
+					strconv.Itoa(start), journal, strconv.FormatInt(deadline.Unix(), 10), resume)
+				resume = "-"
 				cmd.Env = append(os.Environ(), "GOMAXPROCS=1", "GOTRACEBACK=single",
 					"GORACE=log_path="+filepath.Join(tmp, fmt.Sprintf("race%d", shard))+" halt_on_error=0 history_size=3")
 				stdout, _ := cmd.StdoutPipe()
@@ -419,6 +466,7 @@ func ParentMain(o Options) int {
 				aborted := -1
 				// watchdog: the journal names the case being run; the same case for too long is a hang
 				hung := int32(-1)
+				hungText := ""
 				stopWatch := make(chan struct{})
 				go func() {
 					limit := meta.CaseTimeout
@@ -501,18 +549,24 @@ func ParentMain(o Options) int {
 					mu.Lock()
 					viols = append(viols, violRec{Idx: int(h), V: Violation{
 						Sig:  o.ID + "|hang",
-						Msg:  "case did not finish within the per-case watchdog limit; worker killed",
-						Case: p.Describe(int(h)),
+						Msg:  "no progress within the watchdog limit (the journal names the running sub-case); worker killed",
+						Case: describe(hungText, int(h)),
 					}})
-					total.Cases++
 					mu.Unlock()
-					start = int(h) + 1
+					start, resume = resumePoint(hungText, int(h))
+					if resume == "-" {
+						mu.Lock()
+						total.Cases++
+						mu.Unlock()
+					}
 					restarts++
 					continue
 				}
 				// the worker died inside a case
 				last := -1
+				lastText := ""
 				if b, err := os.ReadFile(journal); err == nil {
+					lastText = string(b)
 					last, _ = strconv.Atoi(strings.SplitN(strings.TrimSpace(string(b)), ":", 2)[0])
 				}
 				if aborted < 0 {
@@ -529,15 +583,21 @@ func ParentMain(o Options) int {
 					viols = append(viols, violRec{Idx: last, V: Violation{
 						Sig:  o.ID + "|process-death|" + kind,
 						Msg:  fmt.Sprintf("worker process died while running this case (%v): %s", werr, msg),
-						Case: p.Describe(last),
+						Case: describe(lastText, last),
 					}})
 					mu.Unlock()
 				} else {
 					last = aborted
 				}
-				mu.Lock()
-				total.Cases++ // the case that killed the worker (earlier cases were reported by progress messages)
-				mu.Unlock()
+				nextStart, nextResume := resumePoint(lastText, last)
+				if aborted >= 0 && aborted != last {
+					nextStart, nextResume = aborted+1, "-"
+				}
+				if nextResume == "-" {
+					mu.Lock()
+					total.Cases++ // the case that killed the worker (earlier cases were reported by progress messages)
+					mu.Unlock()
+				}
 				restarts++
 				if restarts > 2000 {
 					mu.Lock()
@@ -545,7 +605,7 @@ func ParentMain(o Options) int {
 					mu.Unlock()
 					return
 				}
-				start = last + 1
+				start, resume = nextStart, nextResume
 			}
 		}(s)
 	}
@@ -697,6 +757,18 @@ func ParentMain(o Options) int {
 		o.ID, o.Tier, total.Cases, n, total.Execs, states, transitions, total.Nontrivial, len(outcomes), total.Unspecified,
 		len(viols)-nUnknown, nUnknown, exhaustive, wall)
 	return exit
+}
+
+// resumePoint decides where a shard continues after its worker died or hung in case idx: on the
+// same case after the recorded sub-case when there is one, otherwise on the next case.
+func resumePoint(journalText string, idx int) (start int, resume string) {
+	parts := strings.Split(strings.TrimSpace(journalText), ":")
+	if len(parts) == 3 {
+		if sub, err := strconv.Atoi(parts[2]); err == nil && sub >= 0 {
+			return idx, fmt.Sprintf("%d:%d", idx, sub)
+		}
+	}
+	return idx + 1, "-"
 }
 
 func firstLines(s string, n int) string {
